@@ -303,6 +303,19 @@ theorem unmap_only_when_empty {s s' : State} (st : step s .libExit = some (s', .
     · simp at st
   · simp at st
 
+/-- **find_chunk_correct**: with non-overlapping chunk mappings, `find_chunk(&chunk_k->readers[i])`
+returns chunk `k` for every valid index `i` – including in a chunk that has just been extended in
+place (`layout` then carries the doubled capacity) – so `cleanup_thread` updates the `used` count
+of the chunk that really contains the reader. -/
+theorem find_chunk_correct (sz : Nat) (hsz : 0 < sz) (layout : List (Nat × Nat))
+    (hd : layout.Pairwise (Disj sz)) (k base cap i : Nat)
+    (hk : layout[k]? = some (base, cap)) (hi : i < cap) :
+    findChunk sz layout (base + i * sz) 0 = some k := by
+  simpa using findChunk_correct_aux sz hsz layout hd 0 k base cap i hk hi
+
+example : findChunk 256 [(4096, 8), (20480, 16)] (20480 + 15 * 256) 0 = some 1 := by decide
+example : findChunk 256 [(4096, 8), (20480, 16)] (4096 + 8 * 256) 0 = none := by decide
+
 /-! ### non-vacuity: concrete runs (outputs computed by `step`) -/
 
 def regs (ts : List Nat) (g : Growth) : List Op := ts.map fun t => Op.register t g
